@@ -404,4 +404,233 @@ func c14BloomNegatives(file []byte) (bad string) {
 	return ""
 }
 
-func c14CopySiteL2(ctx *core.Ctx, only string) {}
+// ---------------------------------------------------------------- L2 of the copy site
+
+// c14CopySiteReal runs the real copy site for one `io.copysrc` request whose source fault is given
+// as (failing ReadAt call index, kept bytes, mode); it returns the request (with the cut observed:
+// the number of bytes the source delivered before it stopped) and the real answer.
+func c14CopySiteReal(capN, k int, mode string, pre, ln, srcCall, srcKeep int, srcMode string) (req, real string, ok bool) {
+	const off0 = 7
+	buf := make([]byte, off0+ln+5)
+	for i := 0; i < ln; i++ {
+		buf[off0+i] = byte((pre + i) % 251)
+	}
+	preBytes := make([]byte, pre)
+	for i := range preBytes {
+		preBytes[i] = byte(i % 251)
+	}
+	x := &c14CutReaderAt{r: bytes.NewReader(buf), failAt: srcCall, keep: srcKeep, eof: srcMode == "eof"}
+	sink := newC14Sink(k, mode)
+	sink.noTrace = true
+	offset, buffered, err := parquet.VerifCopySection(sink, capN, preBytes, x, off0, int64(ln))
+	if x.bad {
+		return "", "", false // the kept bytes filled the request: not a short read
+	}
+	cut, eof := "-", "0"
+	if x.hit {
+		cut = fmt.Sprint(x.delivered)
+		if x.eof {
+			eof = "1"
+		}
+	}
+	capS, kS := "-", "-"
+	if capN > 0 {
+		capS = fmt.Sprint(capN)
+	}
+	if k >= 0 {
+		kS = fmt.Sprint(k)
+	}
+	e := 0
+	if err != nil {
+		e = 1
+	}
+	req = fmt.Sprintf("io.copysrc %s %s %s %d %d %s %s 1", capS, kS, mode, pre, ln, cut, eof)
+	real = fmt.Sprintf("ok %d %d %d %d", e, offset, len(sink.data)+buffered, len(sink.data))
+	return req, real, true
+}
+
+// c14CutReaderAt fails its failAt-th call: keep bytes are delivered, then io.EOF or an error
+type c14CutReaderAt struct {
+	r         *bytes.Reader
+	failAt    int
+	keep      int
+	eof       bool
+	calls     int
+	delivered int
+	hit, bad  bool
+}
+
+func (x *c14CutReaderAt) ReadAt(p []byte, off int64) (int, error) {
+	i := x.calls
+	x.calls++
+	if x.failAt < 0 || i != x.failAt {
+		n, err := x.r.ReadAt(p, off)
+		if !x.hit {
+			x.delivered += n
+		}
+		return n, err
+	}
+	keep := x.keep
+	if keep >= len(p) {
+		if len(p) == 0 {
+			x.bad = true
+			return x.r.ReadAt(p, off)
+		}
+		keep = len(p) - 1
+	}
+	n, _ := x.r.ReadAt(p[:keep], off)
+	x.delivered += n
+	x.hit = true
+	if x.eof {
+		return n, io.EOF
+	}
+	return n, errC14Injected
+}
+
+// the bufio mirror is exact on (err, offset, bytes accepted) for a source error other than io.EOF;
+// the split between sink and buffer is compared for the other cases only
+func c14CopySiteTrim(req, ans string) string {
+	f := strings.Fields(req)
+	if len(f) == 9 && f[1] != "-" && f[6] != "-" && f[7] == "0" {
+		if a := strings.Fields(ans); len(a) == 5 {
+			return strings.Join(a[:4], " ")
+		}
+	}
+	return ans
+}
+
+func c14CopySiteKey(req string) string {
+	f := strings.Fields(req)
+	b, src := "buffered", "none"
+	if f[1] == "-" {
+		b = "unbuffered"
+	}
+	if f[6] != "-" {
+		src = map[string]string{"1": "eof", "0": "err"}[f[7]]
+	}
+	return fmt.Sprintf("%s sink=%s src=%s", b, f[3], src)
+}
+
+func c14CopySiteL2(ctx *core.Ctx, only string) {
+	if only != "" {
+		// replay: the request names the observed cut; re-create a source that stops there
+		f := strings.Fields(only)
+		d := ctx.Driver()
+		if len(f) != 9 || d == nil {
+			return
+		}
+		var capN, pre, ln int
+		k, cut := -1, -1
+		fmt.Sscanf(f[1], "%d", &capN)
+		if f[2] != "-" {
+			fmt.Sscanf(f[2], "%d", &k)
+		}
+		fmt.Sscanf(f[4], "%d", &pre)
+		fmt.Sscanf(f[5], "%d", &ln)
+		srcCall, srcMode := -1, "eof"
+		if f[6] != "-" {
+			fmt.Sscanf(f[6], "%d", &cut)
+			srcCall = 0 // a first read that keeps `cut` bytes stops the source at the same place
+			if f[7] == "0" {
+				srcMode = "err"
+			}
+		}
+		req, real, ok := c14CopySiteReal(capN, k, f[3], pre, ln, srcCall, cut, srcMode)
+		if !ok {
+			return
+		}
+		ans, err := d.Ask(req)
+		ctx.Case(req, true)
+		if err != nil || c14CopySiteTrim(req, ans) != c14CopySiteTrim(req, real) {
+			ctx.Fail("L2", "copy-site-differs "+c14CopySiteKey(req), "copySection of writer.go and its Lean mirror disagree",
+				map[string]any{"request": req, "model": ans, "real": real})
+		}
+		return
+	}
+	ncases := ctx.Scale(6000, 60000)
+	workers := 8
+	var wg sync.WaitGroup
+	for wk := 0; wk < workers; wk++ {
+		wg.Add(1)
+		go func(wk int) {
+			defer wg.Done()
+			d := ctx.Driver()
+			if d == nil {
+				return
+			}
+			r := ctx.Rand(fmt.Sprintf("c14/copysite/%d", wk))
+			var reqs, wants []string
+			flush := func() {
+				if len(reqs) == 0 {
+					return
+				}
+				ans, err := d.AskMany(reqs)
+				if err != nil {
+					ctx.Fail("L2", "driver-error", err.Error(), nil)
+					reqs, wants = nil, nil
+					return
+				}
+				for i := range reqs {
+					if c14CopySiteTrim(reqs[i], ans[i]) != c14CopySiteTrim(reqs[i], wants[i]) {
+						ctx.Fail("L2", "copy-site-differs "+c14CopySiteKey(reqs[i]), "copySection of writer.go and its Lean mirror disagree",
+							map[string]any{"request": reqs[i], "model": ans[i], "real": wants[i]})
+					} else {
+						ctx.Hist("copysrc.l2", c14CopySiteKey(reqs[i]))
+					}
+				}
+				reqs, wants = nil, nil
+			}
+			for i := 0; i < ncases/workers; i++ {
+				capN := []int{0, 0, 1, 2, 3, 4, 5, 8, 16, 64}[r.Intn(10)]
+				c := capN
+				if c == 0 {
+					c = 8
+				}
+				pick := func() int {
+					v := []int{0, 1, 2, c - 1, c, c + 1, 2 * c, 2*c + 1, r.Intn(40)}[r.Intn(9)]
+					if v < 0 {
+						v = 0
+					}
+					return v
+				}
+				pre, ln := pick(), pick()
+				if capN == 0 && r.Intn(200) == 0 {
+					ln = 32768 + []int{-1, 0, 1, 700}[r.Intn(4)] // the 32 KiB buffer of io.Copy
+				}
+				k := -1
+				mode := []string{"full", "short", "fullsticky", "shortsticky", "oneshot", "oneshotshort"}[r.Intn(6)]
+				switch r.Intn(5) {
+				case 0:
+				case 1:
+					mode = []string{"call", "callshort", "callsticky"}[r.Intn(3)]
+					k = r.Intn(4)
+				default:
+					k = r.Intn(pre + ln + 2)
+				}
+				srcCall, srcKeep, srcMode := -1, 0, "eof"
+				if r.Intn(4) > 0 {
+					srcCall = r.Intn(3)
+					srcKeep = []int{0, 1, ln / 2, ln - 1, r.Intn(ln + 1)}[r.Intn(5)]
+					if srcKeep < 0 {
+						srcKeep = 0
+					}
+					if r.Intn(2) == 0 {
+						srcMode = "err"
+					}
+				}
+				req, real, ok := c14CopySiteReal(capN, k, mode, pre, ln, srcCall, srcKeep, srcMode)
+				if !ok {
+					continue
+				}
+				ctx.Case(req, !strings.Contains(req, " - 0 1") && ln > 0)
+				reqs = append(reqs, req)
+				wants = append(wants, real)
+				if len(reqs) >= 1000 {
+					flush()
+				}
+			}
+			flush()
+		}(wk)
+	}
+	wg.Wait()
+}
